@@ -46,7 +46,8 @@ def cases(draw):
     X = [[draw(models.signed_val()) for _ in range(width)] for _ in range(rows)]
     w = [draw(st.floats(0.1, 2.0, allow_nan=False)) for _ in range(rows)]
     second_k = draw(st.sampled_from([None, 0.5, 1.0, 4.0]))
-    return {"model": m, "X": X, "weights": w, "second_k": second_k}
+    X2 = [[draw(models.signed_val()) for _ in range(width)] for _ in range(draw(st.integers(2, 5)))]
+    return {"model": m, "X": X, "weights": w, "second_k": second_k, "X2": X2}
 
 
 def make_adapter(m):
@@ -240,6 +241,18 @@ def _case(spec, ctx):
             if not (rel(pw[1], eb) and rel(pw[3], ev)):
                 ctx.fail("score:sample_weight", f"bias {pw[1]} exp {eb}; variance {pw[3]} exp {ev}", spec)
             ctx.event("sample_weight_checked")
+        # other data through the same estimator: nothing may be carried over from the previous call
+        if spec.get("X2"):
+            X2 = np.array(spec["X2"], float)
+            with ctx.formak("transform:second-data", spec):
+                t4 = np.asarray(ad.transform(X2), float)
+                hand4 = by_hand(ad.export_python(), m, X2)
+            if not np.allclose(t4, hand4, rtol=1e-12, atol=1e-15):
+                ctx.fail("transform:state-carried-over-between-calls", f"second data matrix: transform {t4.tolist()} by hand {hand4.tolist()}", spec)
+            with ctx.formak("transform:first-data-again", spec):
+                t5 = np.asarray(ad.transform(X), float)
+            if not np.array_equal(t5, t1):
+                ctx.fail("transform:not-repeatable", "first matrix again after another matrix", spec)
         # a parameter changed through set_params must be honoured by the next call (no stale compiled filter)
         k0 = m["config"]["innov"]
         k1 = spec.get("second_k", "unset")
